@@ -266,6 +266,16 @@ def fam_c11(R, n):
     for pat in ['(?&nope)', 'a(?&s1)', '(?&s0)(?&S0)']:
         attrs = ['#[logos(subpattern s0 = "a")]']
         out.append(dict(family='c11-undef', src=enum(attrs, ['#[regex(%s)] A,' % rust_str(pat)]), meta=dict(expect_reject='undef_subpattern')))
+    # a subpattern's source has to be a pattern on its own: with unbalanced parentheses the group it is wrapped in closes early and the
+    # rest of the source (an alternation, a flag) leaks into every pattern that refers to it - `k(?&s0)z` with s0 = `x)|(y` would match "yz"
+    for sub in ['x)|(y', 'x)(y', 'a|b)|(c', ')(', 'x)+(y', '(?i)x)|(y', 'x)|(?i:(y)', 'x))|((y']:
+        for shape in ['k(?&s0)z', '(?&s0)']:
+            out.append(dict(family='c11-unclosed', src=enum(['#[logos(subpattern s0 = %s)]' % rust_str(sub)], ['#[regex(%s)] A,' % rust_str(shape)]),
+                            meta=dict(expect_reject='regex_error (the source of the subpattern is not a pattern on its own: the group it is wrapped in would close early and the rest leak into the pattern that refers to it)')))
+        out.append(dict(family='c11-unclosed', src=enum(['#[logos(subpattern s0 = %s)]' % rust_str(sub), '#[logos(subpattern s1 = "q(?&s0)r")]'], ['#[regex("k(?&s1)z")] A,']),
+                        meta=dict(expect_reject='regex_error (unbalanced subpattern referenced from another subpattern)')))
+        out.append(dict(family='c11-unclosed', src=enum(['#[logos(utf8 = false)]', '#[logos(subpattern s0 = %s)]' % rust_bytes(sub.encode())], ['#[regex(b"k(?&s0)z")] A,']),
+                        meta=dict(expect_reject='regex_error (unbalanced byte-string subpattern)')))
     return out
 
 
